@@ -103,8 +103,20 @@ TConsume ==
 (* operation failed does not matter for the state that is tracked, so the  *)
 (* failing actions are taken with k = 1, p = 0.                            *)
 (***************************************************************************)
+\* C18 in any writer state: a write_shape call that succeeded emitted one record whose header announces the
+\* content length of THAT shape (plus, for the first one, the 100 bytes reserved for the file header)
+RecordFrameOK(fx, s) ==
+    LET w   == (ContentSize(s) + 4) \div 2
+        n   == 8 + 2 * w
+        tot == SumSeq([i \in 1..Len(fx) |-> Len(fx[i].bytes)])
+    IN  /\ Len(fx) >= 1
+        /\ tot \in {n, n + 100}
+        /\ LET b == fx[Len(fx)].bytes
+           IN  Len(b) >= n /\ RdBE(b, Len(b) - n + 4) = w
+
 TFWrite ==
     /\ Ev("fwrite") /\ UNCHANGED observed
+    /\ (On("C18") /\ Rec[l].res = "ok") => RecordFrameOK(Rec[l].fxShp, Rec[l].shape)
     /\ LET e == Rec[l]
        IN  IF status = "poisoned"
            THEN /\ WritePoisoned(e.shape)
